@@ -73,8 +73,9 @@ namespace Givaro {
     inline typename Poly1Dom<Domain,Dense>::Rep& Poly1Dom<Domain,Dense>::add
     (Rep& R, const Rep& P, const Type_t& Val) const
     {
-        size_t sP = P.size();
-        if (sP == 0)  {
+        // the zero polynomial may be stored as [], [0], [0,0], ...: test the degree, not size()
+        Degree dP; degree(dP, P);
+        if (dP == Degree::deginfty)  {
             R.resize(1);
             _domain.assign(R[0],Val);
         }
@@ -89,8 +90,9 @@ namespace Givaro {
     inline typename Poly1Dom<Domain,Dense>::Rep& Poly1Dom<Domain,Dense>::add
     (Rep& R, const Type_t& Val, const Rep& P) const
     {
-        size_t sP = P.size();
-        if (sP == 0)  {
+        // the zero polynomial may be stored as [], [0], [0,0], ...: test the degree, not size()
+        Degree dP; degree(dP, P);
+        if (dP == Degree::deginfty)  {
             R.resize(1);
             _domain.assign(R[0],Val);
         }
@@ -201,8 +203,8 @@ namespace Givaro {
     inline typename Poly1Dom<Domain,Dense>::Rep& Poly1Dom<Domain,Dense>::sub
     (Rep& R, const Rep& P, const Type_t& Val) const
     {
-        size_t sP = P.size();
-        if (sP == 0)  {
+        Degree dP; degree(dP, P);
+        if (dP == Degree::deginfty)  {
             R.resize(1);
             _domain.neg(R[0],Val);
         }
@@ -230,14 +232,16 @@ namespace Givaro {
     inline typename Poly1Dom<Domain,Dense>::Rep& Poly1Dom<Domain,Dense>::sub
     (Rep& R, const Type_t& Val, const Rep& P) const
     {
-        size_t sP = P.size();
-        if (sP == 0)  {
+        // Val - P
+        Degree dP; degree(dP, P);
+        if (dP == Degree::deginfty)  {
             R.resize(1);
-            _domain.neg(R[0],Val);
+            _domain.assign(R[0],Val);
         }
         else {
+            Type_t c0; _domain.sub(c0, Val, P[0]);
             neg(R, P);
-            _domain.add(R[0],Val, P[0]);
+            _domain.assign(R[0], c0);
         }
         return R;
     }
